@@ -39,6 +39,15 @@ Theorem C13_schema_order : forall Sc nm fields sname len ps st t,
   s_out t = s_out st ++ concat (map (fun f => odef (field_bytes Sc (s_slow st) ps f)) fields).
 Proof. exact record_bytes_in_schema_order. Qed.
 
+(* presenting a field twice -- in ANY presentation form (struct, struct variant, map with entry or split
+   key/value calls), reached directly or through a union, in any position relative to the other
+   fields (in order, buffered, after the first copy was flushed) -- is an error *)
+Theorem C13_duplicate_field : forall Sc n v on ps w rn fields st,
+  presents v on ps -> route Sc n on = Some (w, FRecord rn fields) ->
+  NoDup (map fst fields) -> ~ NoDup (map fst ps) -> pool_ok st ->
+  is_ok (fst (ser Sc n v st)) = false.
+Proof. exact record_duplicate_field_fails. Qed.
+
 (* the Equal => panic! arm, expected_fields.next().unwrap(), and the debug assertion are
    unreachable for EVERY presentation at every depth; serialize_value before serialize_key is the
    only way to reach the remaining panic site (a Serialize impl breaking the serde protocol) *)
